@@ -200,6 +200,7 @@ package tags
 //@ props C11 C20 C01
 //@ panics nothing
 //@ requires args: w != nil && i >= 0
+//@ assigns writer, alloc S$Val
 //@ ghost writes Int = 0
 //@ ghost failed Bool = false
 //@ at call Fprintf #*: writes = writes + 1
@@ -213,6 +214,7 @@ package tags
 //@ props C11 C20 C01
 //@ panics nothing
 //@ requires args: w != nil && i >= 0 && i < l
+//@ assigns writer
 //@ ghost writes Int = 0
 //@ ghost failed Bool = false
 //@ at call WriteString #*: writes = writes + 1
